@@ -56,6 +56,10 @@ def real_deserialize(direction, raw):
     """({'m': json} or {'err': class name})"""
     f = M.deserialize_host_msg if direction == "host" else M.deserialize_return_msg
     try:
+        _DECODE_ORDER.append(direction)
+    except NameError:
+        pass
+    try:
         return {"m": msg_to_json(f(bytes(raw)))}
     except Exception as e:
         return {"err": type(e).__name__}
@@ -205,8 +209,11 @@ def apply_real(obj, mj, u, k):
 def own_bytes_ok(direction, obj):
     """model-free oracle at one moment: the object's bytes deserialise to its current field values
     and len(obj) is the length of these bytes. Returns None if fine, else a description."""
-    cur = msg_to_json(obj)
-    rb = list(bytes(obj))
+    try:
+        cur = msg_to_json(obj)
+        rb = list(bytes(obj))
+    except Exception as e:
+        return {"exception_while_serialising": type(e).__name__ + ": " + str(e)[:120]}
     rd = real_deserialize(direction, rb)
     if rd != {"m": cur}:
         return {"current_fields": cur, "deserialised": rd, "bytes": rb[:120]}
@@ -224,43 +231,86 @@ def mutable_parts(obj):
     return []
 
 
-def run_decode_history(pool, rng, n_steps):
-    """pool: [(direction, model-json, bytes)].  Decodes entries (repeats and empty arrays favoured),
-    edits earlier decoded objects in place, decodes again.  Returns (steps, problems, live) where
-    live = [(direction, decoded-from json, updates applied, object)] for the model comparison."""
+_DECODE_ORDER = []  # directions of the real decoder calls made so far in this process (most recent last)
+
+
+def decode_order_tail(n=12):
+    return list(_DECODE_ORDER[-n:])
+
+
+def guarded_decode(direction, raw):
+    """the real decoder on `raw`; never raises: (object or None, json or None, exception class or None).
+    Records the direction in the process-wide order of decoder calls (the two directions share the
+    module, so what one direction did before may matter for the other)."""
+    _DECODE_ORDER.append(direction)
+    f = M.deserialize_host_msg if direction == "host" else M.deserialize_return_msg
+    try:
+        obj = f(bytes(raw))
+    except Exception as e:
+        return None, None, type(e).__name__ + ": " + str(e)[:120]
+    try:
+        return obj, msg_to_json(obj), None
+    except Exception as e:  # an object of an unexpected type / shape came back
+        return obj, None, "unreadable result %s (%s)" % (type(obj).__name__, type(e).__name__)
+
+
+def run_decode_history(pool, rng, n_steps, script=None):
+    """pool: [(direction, model-json, bytes)].  Decodes entries -- host-direction and return-direction
+    messages INTERLEAVED, repeats and empty arrays favoured --, edits earlier decoded objects in place,
+    decodes again.  `script`: fixed list of pool entries to decode (no edits).  Nothing the real code
+    does escapes: a decoder that raises on the bytes of a valid message, or returns something else,
+    is a recorded problem.  Returns (steps, problems, live) where live = [(direction, decoded-from
+    json, updates applied, object)] for the model comparison."""
     steps, problems, live = [], [], []
     empties = [p for p in pool if p[1]["k"] == "arr" and not p[1]["v"]]
+    by_dir = {"host": [p for p in pool if p[0] == "host"], "ret": [p for p in pool if p[0] == "ret"]}
     last = None
-    for _ in range(n_steps):
+    for step in range(len(script) if script is not None else n_steps):
         r = rng.random()
-        if last is not None and r < 0.3:
+        if script is not None:
+            entry = script[step]
+        elif last is not None and r < 0.25:
             entry = last                      # the same bytes again
-        elif empties and r < 0.6:
+        elif last is not None and r < 0.6 and by_dir["ret" if last[0] == "host" else "host"]:
+            entry = rng.choice(by_dir["ret" if last[0] == "host" else "host"])   # switch direction
+        elif empties and r < 0.8:
             entry = rng.choice(empties)       # empty arrays: nothing to unpack
         else:
             entry = rng.choice(pool)
         last = entry
         direction, mj, raw = entry
-        f = M.deserialize_host_msg if direction == "host" else M.deserialize_return_msg
-        obj = f(bytes(raw))
-        got = msg_to_json(obj)
-        steps.append({"decode": mj})
+        before = decode_order_tail()
+        obj, got, exc = guarded_decode(direction, raw)
+        steps.append({"decode": mj, "decoder": direction})
         if got != mj:
-            problems.append({"step": len(steps), "what": "decoded message differs from the reference decode",
-                             "bytes": list(raw)[:60], "reference": mj, "got": got})
+            problems.append({"step": len(steps),
+                             "what": ("the decoder raises on the bytes of a valid message" if obj is None else
+                                      "decoded message differs from the reference decode"),
+                             "decoder": direction, "decoder_calls_before": before,
+                             "bytes": list(raw)[:60], "reference": mj, "got": got, "exception": exc})
+        if got is None:
+            continue
         for (_, _, _, prev) in live:
             if prev is obj or any(a is b for a in mutable_parts(prev) for b in mutable_parts(obj)):
                 problems.append({"step": len(steps), "what": "two decoded messages share a mutable part",
                                  "reference": mj})
+        if got != mj:
+            continue                          # not a faithful object: do not build further steps on it
         rec = [direction, mj, [], obj]
         live.append(rec)
+        if script is not None:
+            continue
         # edit some decoded object in place (the holder of a result fills it in / post-processes it)
         for _k in range(rng.randrange(0, 3)):
             tgt = rng.choice(live)
-            cur = msg_to_json(tgt[3])
-            us = [u for u in gen_history(cur, rng, 2) if u["u"] != "obs"][:2]
-            for u in us:
-                apply_real(tgt[3], tgt[1], u, 0)
-                tgt[2].append(u)
-                steps.append({"edit_decoded": live.index(tgt), "update": u})
+            try:
+                cur = msg_to_json(tgt[3])
+                us = [u for u in gen_history(cur, rng, 2) if u["u"] != "obs"][:2]
+                for u in us:
+                    apply_real(tgt[3], tgt[1], u, 0)
+                    tgt[2].append(u)
+                    steps.append({"edit_decoded": live.index(tgt), "update": u})
+            except Exception as e:
+                problems.append({"step": len(steps), "what": "editing a decoded message raises",
+                                 "exception": type(e).__name__ + ": " + str(e)[:120]})
     return steps, problems, live
